@@ -221,7 +221,12 @@ class JnpConcatenatePlugin(PrimitiveLeafPlugin):
         if all(isinstance(sz, (int, np.integer)) for sz in axis_sizes):
             out_shape[norm_axis] = int(sum(int(sz) for sz in axis_sizes))
         else:
-            out_shape[norm_axis] = axis_sizes[0]
+            # Symbolic extents add up like static ones (DimExpr supports `+`);
+            # taking the first operand's size typed concatenate([x, x]) as (B, N).
+            total = axis_sizes[0]
+            for sz in axis_sizes[1:]:
+                total = total + sz
+            out_shape[norm_axis] = total
         out_dtype = _promote_dtype([np.dtype(a.dtype) for a in arrays])
         return ShapedArray(tuple(out_shape), out_dtype)
 
